@@ -61,34 +61,34 @@ Proof.
 Qed.
 
 (** With a non-negative sheet whose total the marker account covers, nobody else holds anything. *)
-Lemma recalled_all m a : NonNeg m -> total m <= get m ESCROW -> a <> ESCROW -> get m a = 0.
+Lemma recalled_all m e a : NonNeg m -> total m <= get m e -> a <> e -> get m a = 0.
 Proof.
-  intros Hm Hle Ha. pose proof (get_pair_le_total m a ESCROW Hm Ha). pose proof (get_nonneg m a Hm). lia.
+  intros Hm Hle Ha. pose proof (get_pair_le_total m a e Hm Ha). pose proof (get_nonneg m a Hm). lia.
 Qed.
 
 #[local] Opaque get set total.
 
 (** * Bank primitives *)
 Definition frame (s s' : state) : Prop :=
-  maxsupply s' = maxsupply s /\ govparam s' = govparam s /\ gen s' = gen s /\ mk s' = mk s.
+  maxsupply s' = maxsupply s /\ govparam s' = govparam s /\ gen s' = gen s /\ esc s' = esc s /\ mk s' = mk s.
 
 Lemma adjust_spec s w s' :
   adjust s w = Some s' ->
   frame s s' /\ supply s' = w /\
-  get (bal s') ESCROW = get (bal s) ESCROW + (w - supply s) /\
-  (forall a, a <> ESCROW -> get (bal s') a = get (bal s) a) /\
+  get (bal s') (esc s) = get (bal s) (esc s) + (w - supply s) /\
+  (forall a, a <> esc s -> get (bal s') a = get (bal s) a) /\
   (BankInv s -> BankInv s').
 Proof.
   unfold adjust, frame, BankInv.
   destruct (Z.ltb_spec (supply s) w) as [Hlt|Hge].
-  - intros [= <-]. unfold mint_escrow, set_bank. cbn [mk bal supply maxsupply govparam gen].
+  - intros [= <-]. unfold mint_escrow, set_bank. cbn [mk bal supply maxsupply govparam gen esc].
     rewrite get_set_same. repeat split; try lia.
     + intros a Ha. apply get_set_other. congruence.
-    + apply NonNeg_set; [tauto|]. pose proof (get_nonneg (bal s) ESCROW). intuition lia.
+    + apply NonNeg_set; [tauto|]. pose proof (get_nonneg (bal s) (esc s)). intuition lia.
     + rewrite total_set. intuition lia.
   - destruct (Z.ltb_spec w (supply s)) as [Hlt|Hge'].
-    + unfold burn_escrow. destruct (Z.leb_spec (supply s - w) (get (bal s) ESCROW)) as [Hle|Hgt]; [|discriminate].
-      intros [= <-]. unfold set_bank. cbn [mk bal supply maxsupply govparam gen].
+    + unfold burn_escrow. destruct (Z.leb_spec (supply s - w) (get (bal s) (esc s))) as [Hle|Hgt]; [|discriminate].
+      intros [= <-]. unfold set_bank. cbn [mk bal supply maxsupply govparam gen esc].
       rewrite get_set_same. repeat split; try lia.
       * intros a Ha. apply get_set_other. congruence.
       * apply NonNeg_set; [tauto|lia].
@@ -102,7 +102,7 @@ Lemma move_spec s f t amt s' :
 Proof.
   unfold move, frame, BankInv. cbv zeta.
   destruct (Z.leb_spec amt (get (bal s) f)) as [Hle|Hgt]; [|discriminate].
-  intros [= <-] Hamt. unfold set_bank. cbn [mk bal supply maxsupply govparam gen].
+  intros [= <-] Hamt. unfold set_bank. cbn [mk bal supply maxsupply govparam gen esc].
   repeat split; try reflexivity.
   - apply NonNeg_set.
     + apply NonNeg_set; [tauto|lia].
@@ -144,7 +144,7 @@ Ltac use_specs :=
 
 Ltac simp_state :=
   unfold frame, BankInv in *;
-  cbn [set_mk set_bank mk bal supply maxsupply govparam gen
+  cbn [set_mk set_bank set_params mk bal supply maxsupply govparam gen esc
        with_status with_supply with_access st msupply fixed govctl ty forced manager access] in *.
 
 (** Drops boolean side conditions that are not integer comparisons (they only slow [lia] down). *)
